@@ -13,6 +13,7 @@
 //      and off.
 #include <sys/personality.h>
 
+#include <cerrno>
 #include "checks/stream_corpus.h"
 #include "draco/compression/point_cloud/point_cloud_sequential_decoder.h"
 #include "draco/compression/point_cloud/point_cloud_kd_tree_decoder.h"
@@ -734,6 +735,21 @@ int main(int argc, char **argv) {
         e.arena_mode = 0;
         e.fill = -1;
         ctx.count("allocator_answer_runs");
+        if (ok2 == ok && (!ok || (b == base && dg == base_dg))) {
+          // C library state left by unrelated earlier calls is an environment answer too: errno == ERANGE / EDOM before the call
+          for (int en : {ERANGE, EDOM}) {
+            Bytes b3;
+            uint64_t dg3 = 0;
+            errno = en;
+            const bool ok3 = run_gen(g, &b3, &dg3);
+            errno = 0;
+            ctx.count("errno_answer_runs");
+            if (ok3 != ok || (ok && (b3 != base || dg3 != base_dg))) {
+              ctx.fail("output-depends-on-stale-errno:" + std::to_string(en), g.name);
+              return;
+            }
+          }
+        }
         if (ok2 != ok || (ok && (b != base || dg != base_dg))) {
           ctx.fail("output-depends-on-allocator-answer:fill" + std::to_string(a.fill) + ":arena" + std::to_string(a.arena), g.name);
           return;
